@@ -358,7 +358,7 @@ def run(tier, seed):
                 "non-trivial = distinct (function, arguments) that agree and are not a plain call on a None receiver returning a value",
         "samples": samples[:5],
     })
-    if dev:
+    if dev and os.path.isdir("/var/tmp/agent_C13"):
         with open("/var/tmp/agent_C13/last_run.json", "w") as f:
             json.dump({"drift": rep.drift, "violations": rep.violations, "kf": {k: v[:20] for k, v in rep.kf_hits.items()}}, f, default=str)
     rc = rep.finish()
